@@ -196,6 +196,24 @@ class Heap(object):
         f = z3.Function("P_idx", *([a.sort() for a in args] + [IntS, IntS, IntS]))
         return VInt(f(*(args + [x.t, y.t])))
 
+    def hgt(self, x):
+        """a rank that strictly decreases from a node to each of its children (well-foundedness of the tree)"""
+        f = z3.Function("G_hgt", self.f["parent"].sort(), self.f["child"].sort(), IntS, IntS)
+        return VInt(f(self.f["parent"], self.f["child"], x.t))
+
+    def nleaves(self, x):
+        """NL(x): number of tokens under x"""
+        args = self._shape_args()
+        f = z3.Function("G_nl", *([a.sort() for a in args] + [IntS, IntS]))
+        return VInt(f(*(args + [x.t])))
+
+    def snl(self, x, k):
+        """SNL(x, k): number of tokens under the first k stored children of x"""
+        args = self._shape_args()
+        f = z3.Function("G_snl", *([a.sort() for a in args] + [IntS, IntS, IntS]))
+        k = k.t if isinstance(k, VInt) else (z3.IntVal(k) if isinstance(k, int) else k)
+        return VInt(f(*(args + [x.t, k])))
+
     def depth(self, x):
         f = z3.Function("G_depth", self.f["parent"].sort(), IntS, IntS)
         return VInt(f(self.f["parent"], x.t))
